@@ -13,6 +13,7 @@ NAMES = {0: 'FftPlan(n)(x[n2])', 1: 'FftPlanR(n)(x[n2])', 2: 'IfftPlan(n)(x[n2])
          64: 'stft(x[n2], hann(n), overlap n3, nfft n)', 65: 'istft(stft(x[n2], hann(n)), hann(n), overlap n3, n)', 66: 'iscola(hann(n), overlap n3)', 67: 'thd(power spectrum[n] peak at bin n2, nharm n3/2, aliased n3&1)',
          68: 'snr(power spectrum[n] peak at bin n2, nharm n3/2, aliased n3&1)', 69: 'sinad(power spectrum[n] peak at bin n2)', 75: 'thd(tone[2n] at n2/(2n), nharm n3/2, aliased n3&1)', 76: 'snr(tone[2n] at n2/(2n), nharm n3/2, aliased n3&1)',
          70: 'fft(cmplx x[n])', 71: 'fft(real x[n])', 72: 'rfft(x[n])', 73: 'ifft(x[n])', 74: 'irfft(X[n])',
+         77: 'isprime(table[n]) (largest 32-bit primes, 65521^2, 2^32-1, products next to 2^32)', 78: 'factor(table[n])',
          53: 'fir1(n, 0.3)', 54: 'window::hann(n)', 55: 'repelem(x[n], n2)', 56: 'flip(x[n])', 57: 'medfilt(x[n], n2)', 58: 'mscohere(x[n2], y[n2], winlen n)', 59: 'linspace(a, b, n)'}
 
 def rel(n): return sorted({0, 1, 2, 3, max(n - 1, 0), n, n + 1, 2 * n})
@@ -85,6 +86,8 @@ def programs(tier):
     for n in ((8,) if q else (8, 12)):
         for n2 in range(1, n + 1):
             for n3 in (4, 5, 12, 13): P.append((75, n, n2, n3)); P.append((76, n, n2, n3))
+    for pid in (77, 78):      # (nextprime / primes enumerate every prime up to n by design: minutes at the top of the range, not a hang - not driven there)
+        for n in range(8): P.append((pid, n, 0, 0))
     for pid in (70, 71, 72, 73, 74):
         for n in (0, 1, 2, 3): P.append((pid, n, 0, 0))
     return P
